@@ -179,25 +179,11 @@ theorem typed_parser_same_tree (target : VarT) (ts : List Tok) (a : Ast) (vt : V
 theorem typed_parser_total (target : VarT) (ts : List Tok) : parseTyped target ts ≠ .fuel :=
   parseTyped_ne_fuel target ts
 
-/-- The code as it is: the top node of a `* /` or `+ -` chain of three or more operands carries the
-coerced type of its LAST TWO operands only (`x`, `y` are the last and second-to-last operator
-entries of the `nodes` vector; `t0` the first operand's type, `prev` the rest) — so the static
-type check of `DEFINE FUX WOPR + 1 + 2` sees SCALAR and passes (finding `chain-type-check`). -/
-theorem chain_type_last_two (t0 : VarT) (x y : Head × Ast × VarT) (prev : TAcc) (v : VarT)
-    (h : buildT t0 (x :: y :: prev) = some v) : updateType x.2.2 y.2.2 = some v :=
-  OpmVerif.Udq.chain_type_last_two t0 x y prev v h
-
-/-- …in particular the first operand and all operands before the second-to-last are ignored. -/
-theorem chain_type_ignores_earlier (t0 t0' : VarT) (x y : Head × Ast × VarT) (prev prev' : TAcc) (v v' : VarT)
-    (h : buildT t0 (x :: y :: prev) = some v) (h' : buildT t0' (x :: y :: prev') = some v') : v = v' :=
-  OpmVerif.Udq.chain_type_ignores_earlier t0 t0' x y prev prev' v v' h h'
-
-/-- The candidate repair (`design.d/C17.chain-type.patch`: fold the chain from the left): the top
-type of a chain is the type of ANY restricted (well / group / segment / …) operand in it, wherever
-it stands. -/
-theorem fixed_chain_type (t0 : VarT) (acc : TAcc) (v : VarT) (h : buildFix t0 acc = some v)
+/-- The top type of a `* /` or `+ -` chain is the type of ANY restricted (well / group / segment /
+…) operand in it, wherever it stands (the chain is folded from the left). -/
+theorem chain_type (t0 : VarT) (acc : TAcc) (v : VarT) (h : buildT t0 acc = some v)
     (t : VarT) (ht : t = t0 ∨ t ∈ acc.map (·.2.2)) (hn : isNoMix t = true) : v = t :=
-  buildFix_restricted_wins t0 acc v h t ht hn
+  buildT_restricted_wins t0 acc v h t ht hn
 
 /-- DEFINE record tokenisation (`Model/UdqLex.lean`: `quote_split`, `next_token`,
 `normalize_string_tokens`, `make_udq_tokens` of UDQDefine.cpp).  `next_token` always returns a
@@ -265,27 +251,26 @@ example : parse [⟨.number, .num 2, []⟩, ⟨.binary_op_pow, .str "^", []⟩, 
 /-- end of input inside `parse_factor` is a parse error -/
 example : parse [lpTok] = .invalid := by decide +kernel
 
-/-! static type check, as the code is: order dependent -/
+/-! static type check: independent of the operand order -/
 def wopr : Tok := ⟨.ecl_expr, .str "WOPR", []⟩
 def one : Tok := ⟨.number, .num 0x3ff0000000000000, []⟩
 def plusTok : Tok := ⟨.binary_op_add, .str "+", []⟩
 
 /-- `DEFINE FUX WOPR + 1` is rejected … -/
 example : parseTyped .field_var [wopr, plusTok, one] = .typeError := by decide +kernel
-/-- … `DEFINE FUX WOPR + 1 + 1` is accepted with type SCALAR … -/
-example : (match parseTyped .field_var [wopr, plusTok, one, plusTok, one] with
-    | .ast _ vt => vt == .scalar | _ => false) = true := by decide +kernel
-/-- … and the same tree written `(WOPR + 1) + 1` is rejected again. -/
+/-- … and so are `DEFINE FUX WOPR + 1 + 1` … -/
+example : parseTyped .field_var [wopr, plusTok, one, plusTok, one] = .typeError := by decide +kernel
+/-- … and the same tree written `(WOPR + 1) + 1`. -/
 example : parseTyped .field_var [lpTok, wopr, plusTok, one, rpTok, plusTok, one] = .typeError := by decide +kernel
-example : buildFix .well_var [(op .binary_op_add "+", num 1, .scalar), (op .binary_op_add "+", num 1, .scalar)] = some .well_var := by
+example : buildT .well_var [(op .binary_op_add "+", num 1, .scalar), (op .binary_op_add "+", num 1, .scalar)] = some .well_var := by
   decide +kernel
 
 /-- `WOPR'P*'*1.5E-3-(2)` -/
 example : (match Lex.tokenize ["WOPR'P*'*1.5E-3-(2)".toList] with
     | .ok ts => ts.map (fun t => String.ofList t.text) | _ => []) = ["WOPR", "*", "1.5E-3", "-", "(", "2", ")"] := by
   decide +kernel
-/-- a table look-up without `]`: the code runs past the end of its token vector -/
-example : (match Lex.tokenize ["TU_FBHP[FOPR".toList] with | .pastEnd => true | _ => false) = true := by decide +kernel
+/-- a table look-up without `]` is an input error -/
+example : (match Lex.tokenize ["TU_FBHP[FOPR".toList] with | .missingBracket => true | _ => false) = true := by decide +kernel
 
 example : okRest 3 [⟨.binary_op_add, .str "+", []⟩] := by simp [okRest, allowed]; decide
 
